@@ -4,6 +4,7 @@ import (
 	"context"
 	"encoding/json"
 	"fmt"
+	"github.com/cosi-project/runtime/pkg/resource/kvutils"
 	"os"
 	"path/filepath"
 	"strings"
@@ -33,6 +34,7 @@ type sOp struct {
 	Exp      string            `json:"exp,omitempty"`     // expected phase: "" (default) | running | tearingDown | any
 	VerRel   string            `json:"ver_rel,omitempty"` // generator hint: cur | stale | future | undef (resolved to Ver at run time if Ver == "")
 	Fault    bool              `json:"fault,omitempty"`   // the backing store rejects the write of this operation (faulty handle only)
+	ViaGet   bool              `json:"via_get,omitempty"` // update: the labels of the supplied object are edited on a copy read from the state (batch editor, deletions first)
 }
 
 func (o sOp) build(t0 time.Time, lastVer map[string]uint64) *Res {
@@ -141,6 +143,31 @@ func execOp(ctx context.Context, st state.CoreState, o sOp, t0 time.Time, lastVe
 		mu.Lock()
 		r := o.build(t0, lastVer)
 		mu.Unlock()
+
+		if o.ViaGet {
+			// the usual way to update: start from what the state returned. The label set of that copy (which may share its
+			// map with the stored object) is edited into the wanted one, deletions first
+			if cur, err := st.Get(ctx, resource.NewMetadata(o.NS, o.Typ, o.ID, resource.VersionUndefined)); err == nil {
+				want := map[string]string{}
+				for _, k := range r.Metadata().Labels().Keys() {
+					want[k], _ = r.Metadata().Labels().Get(k)
+				}
+
+				*r.Metadata().Labels() = *cur.Metadata().Labels()
+
+				r.Metadata().Labels().Do(func(tmp kvutils.TempKV) {
+					for _, k := range cur.Metadata().Labels().Keys() {
+						if _, keep := want[k]; !keep {
+							tmp.Delete(k)
+						}
+					}
+
+					for k, v := range want {
+						tmp.Set(k, v)
+					}
+				})
+			}
+		}
 
 		opt, coqExp := expOpt(o.Exp)
 		coqOp = fmt.Sprintf("(OpUpdate %s %s %s)", coqRes(r, t0), coqAtom(o.Owner), coqExp)
